@@ -39,17 +39,17 @@ def product_check(rep: common.Report, cases: list[dict], tag: str, prop: str = "
 
 
 def corrupt(case: dict) -> dict | None:
-    """binding self-test: retarget one taken-branch / drop one op of a correct compile result"""
+    """binding self-test: change one parameter of the first op of the first non-empty routine that has a source
+    body (always reachable, hence always observable)"""
     m = json.loads(json.dumps(drive.tlc_view(case)))
     m["src"] = case["src"]
-    for r in m["ops"]:
-        offs = [o["off"] for o in r]
-        for o in r:
-            if o["tgt"] != -1 and o["op"] != "Jump":
-                others = [x for x in offs if x != o["tgt"]]
-                if others:
-                    o["tgt"] = others[0]
-                    return m
+    for sr in m["routines"]:
+        if sr["alias"] or not (1 <= sr["rix"] <= len(m["ops"])):
+            continue
+        r = m["ops"][sr["rix"] - 1]
+        if r and r[0]["op"] != "Jump":
+            r[0]["ps"] = r[0]["ps"] + ["i:424242"]
+            return m
     return None
 
 
